@@ -355,7 +355,7 @@ pub fn run(a: &Args) -> i32 {
         if ctx.model.available() {
             ctx.model.ask(&tagged("env-set", vec![atom(&b.idx.to_string()), list(b.items.clone()), list(vec![])]));
         }
-        let pg = PayloadGen { s: &c.schema, doc: &c.doc, deny_deprecated: false, max_list: 2, depth_budget: 5 };
+        let pg = PayloadGen { s: &c.schema, doc: &c.doc, deny_deprecated: false, max_list: 2, depth_budget: 5, absent_percent: 0 };
         for _ in 0..4 {
             if c.family.starts_with("input-graph") {
                 // only graphs whose required edges are acyclic have finite values
@@ -392,7 +392,7 @@ pub fn run(a: &Args) -> i32 {
                 }
                 (Reply::Ok(reser), "de") => {
                     if !c.no_serialize {
-                        let pg = PayloadGen { s: &c.schema, doc: &c.doc, deny_deprecated: false, max_list: 2, depth_budget: 5 };
+                        let pg = PayloadGen { s: &c.schema, doc: &c.doc, deny_deprecated: false, max_list: 2, depth_budget: 5, absent_percent: 0 };
                         if drop_nulls(&canon_numbers(reser)) != pg.expected(&c.doc.ops[0], input) {
                             rep.fail("indirection-visible-in-json", case.clone());
                         }
